@@ -39,7 +39,7 @@ type c01env struct {
 	wantTok  map[int]string // message -> fields of the token it was addressed to
 	sent     [2]int
 	answered [2]int
-	flushN   [2]int   // flush goroutines seen
+	flushN   [2]int      // flush goroutines seen
 	flushQ   [2][]string // waiting flush goroutines
 	running  [2]string
 }
